@@ -294,9 +294,77 @@ def inputs_c01(rng, tier):
     return gen.as_inputs(fr)
 
 
-GENERATORS = {"C01": inputs_c01, "C02": inputs_c02, "C03": inputs_c03, "C04": inputs_c04, "C06": inputs_c06,
+def inputs_c07(rng, tier):
+    fr = []
+    V = gen.ME_FIELDS["vel"]
+    ctx = q(tier, 1, 4)
+
+    def vel(df=17, st=None):
+        b = es_frame(rng, df, 19)
+        if st is not None:
+            setf(b, 37, 3, st)
+        return b
+    # raw fields: every value of every field, in every subtype, both carriers
+    for df in (17, 18):
+        for st in range(8):
+            for name, (off, w) in V.items():
+                if name == "st":
+                    continue
+                full = 11 if (df == 17 and st in (1, 3)) else 5
+                fr += field_sweep(rng, lambda: vel(df, st), 32 + off, w, contexts=ctx, full_upto=full)
+    # vertical rate with its sign and source: all 2^11 codes; GNSS difference: all 2^8 codes
+    for st in (1, 2, 3):
+        for code in range(2048):
+            b = vel(17, st); setf(b, 32 + 35, 1, code >> 10); setf(b, 32 + 36, 10, code & 1023); fr.append(b)
+        for code in range(256):
+            b = vel(17, st); setf(b, 32 + 48, 8, code); fr.append(b)
+    # airspeed / heading codes with their status bits
+    for st in (3, 4):
+        for code in range(2048):
+            b = vel(17, st); setf(b, 32 + 13, 11, code); fr.append(b)
+            b = vel(17, st); setf(b, 32 + 24, 11, code); fr.append(b)
+    # derived velocity: direction bits x component lattice (thorough: all 2^22 combinations)
+    if tier == "quick":
+        lat = sorted({0, 1, 2, 3, 4, 511, 512, 513, 1021, 1022, 1023} | {rng.randrange(1024) for _ in range(24)})
+        for st in (1, 2):
+            for dew in (0, 1):
+                for dns in (0, 1):
+                    for vew in lat:
+                        for vns in lat:
+                            b = vel(17, st)
+                            setf(b, 32 + 13, 1, dew); setf(b, 32 + 14, 10, vew); setf(b, 32 + 24, 1, dns); setf(b, 32 + 25, 10, vns)
+                            if rng.random() < 0.9:
+                                setf(b, 32 + 37, 9, rng.randrange(1, 512))
+                            fr.append(b)
+    else:
+        for combo in range(1 << 22):
+            b = vel(17, 1 if combo & 1 == 0 or rng.random() < 0.5 else 2)
+            setf(b, 32 + 13, 22, combo)
+            if rng.random() < 0.97:
+                setf(b, 32 + 37, 9, rng.randrange(1, 512))
+            fr.append(b)
+    # subtypes without a derived velocity, and "no information" codes
+    for st in (0, 3, 4, 5, 6, 7):
+        for _ in range(q(tier, 100, 2000)):
+            fr.append(vel(rng.choice((17, 18)), st))
+    for st in (1, 2):
+        for _ in range(q(tier, 200, 4000)):
+            b = vel(rng.choice((17, 18)), st)
+            which = rng.randrange(3)
+            if which == 0:
+                setf(b, 32 + 14, 10, 0)
+            elif which == 1:
+                setf(b, 32 + 25, 10, 0)
+            else:
+                setf(b, 32 + 37, 9, 0)
+            fr.append(b)
+    return gen.as_inputs(fr)
+
+
+GENERATORS = {"C01": inputs_c01, "C07": inputs_c07, "C02": inputs_c02, "C03": inputs_c03, "C04": inputs_c04, "C06": inputs_c06,
               "C08": inputs_c08, "C09": inputs_c09, "C10": inputs_c10}
 
+EXHAUSTIVE_THOROUGH = {"C07": "all 2^22 combinations of direction bits and 10-bit velocity components (derived velocity)"}
 EXHAUSTIVE = {"C06": "all 8192 13-bit codes in DF0/4/16/20 and all 4096 12-bit codes in each of the 13 type codes (DF17)",
               "C09": "all 8192 identity codes in DF5, DF21 and type 28"}
 
@@ -314,7 +382,7 @@ def run(prop, tier, seed, rep, extra_inputs=None):
     if extra_inputs:
         inputs += extra_inputs
     hx = core.build_hx("std")
-    args = ["decode"] + (["--ops"] if prop == "C01" else [])
+    args = ["decode"] + (["--ops"] if prop in ("C01", "C07") else [])
     events = core.run_hx(hx, args, inputs)
     if len(events) != len(inputs):
         raise core.ToolError(f"recorder returned {len(events)} events for {len(inputs)} inputs")
@@ -334,6 +402,9 @@ def run(prop, tier, seed, rep, extra_inputs=None):
     accepted = sum(1 for e in events if e["out"].get("ok") == 1)
     rep.extra.update({"events": len(events), "distinct_inputs": distinct, "accepted_frames": accepted,
                       "rejected_frames": len(events) - accepted})
+    if tier == "thorough" and prop in EXHAUSTIVE_THOROUGH:
+        rep.exhaustive = True
+        rep.extra["exhaustive_over"] = EXHAUSTIVE_THOROUGH[prop]
     if prop in EXHAUSTIVE:
         rep.exhaustive = True
         rep.extra["exhaustive_over"] = EXHAUSTIVE[prop]
